@@ -12,10 +12,10 @@ D=$WT/mut_$K.diff
 git apply --check "$D" 2>/dev/null || git apply -3 --check "$D" || { echo "patch does not apply at $HEAD"; exit 9; }
 base_demo=$(cd $WT && timeout 300 /venv/bin/python demo_$K.py >/dev/null 2>&1; echo $?)
 git apply "$D" 2>/dev/null || git apply -3 "$D"
-git diff > /tmp/seed_patch_${P}_${K}.diff
+git diff HEAD > /tmp/seed_patch_${P}_${K}.diff
 suite=$(timeout 600 /venv/bin/python -m pytest -q -p no:cacheprovider 2>&1 | tail -1)
 mut_demo=$(timeout 300 /venv/bin/python demo_$K.py >/dev/null 2>&1; echo $?)
-git checkout -q -- . ; git reset -q 2>/dev/null
+git reset -q --hard HEAD 2>/dev/null
 echo "$P/$K: suite-with-change: $suite | demo exit with change: $mut_demo | demo exit without: $base_demo"
 if [[ "$suite" == *"52 passed"* && "$mut_demo" != "0" && "$base_demo" == "0" ]]; then
   S=/verif/seeded/$P-$TAG$K; mkdir -p $S
